@@ -18,6 +18,8 @@ func init() {
 
 func runC02(c *Ctx) {
 	const role = "code-validate"
+	defer c02Whitelist(c)
+	defer c02Setters(c)
 	fns := c.codeValidateFns()
 	if len(fns) == 0 {
 		c.RoleUnmatched("C02.R1", role, "validate-phase function calling GetAuthorizeCodeSession")
